@@ -14,6 +14,8 @@ GENERIC = re.compile(
     re.I,
 )
 
+KEOPS_CHOLESKY = "Cannot run Cholesky with KeOps"
+
 OP_FAMILY = {
     "matmul": (("matmul", "_matmul", "__matmul__", "rmatmul", "__rmatmul__", "_t_matmul"), r"matmul|multipl"),
     "getitem": (("__getitem__", "_getitem", "_get_indices", "_split_slice", "_expand_batch"), r"slic|index"),
@@ -81,6 +83,10 @@ def is_declined(exc, op_kind):
         form = False
     if not form:
         return False
+    if msg.startswith(KEOPS_CHOLESKY):
+        # the library's documented refusal to Cholesky-factorize a KeOps-backed operator: whatever public operation
+        # needed the factorization is thereby explicitly declined (any property; counted by the callers)
+        return True
     fam = OP_FAMILY.get(op_kind)
     if fam is None:
         return True
